@@ -17,6 +17,7 @@ from ..affine import Aff
 from ..symlen import SymEval, State, Int, Seq, Obj, Tup, fresh
 from .. import guards
 from .. import tok as T
+from .. import normalize
 
 
 class TokVal:
@@ -81,7 +82,7 @@ class ScanEval(SymEval):
                 cst.vars = keep
             for p, v in zip(params, args):
                 cst.vars[p] = v
-            sub.run(callee.body, cst)
+            sub.run(normalize.sunk_body(callee), cst)
             if not is_tail:
                 # the call's tokens are not returned by next_token; its effect on the scan
                 # position is what all its exits agree on (else unknown)
@@ -161,7 +162,7 @@ def pd6(model):
     st.vars['self.max_pos'] = Int(M)
     st.vars['self.latex'] = Seq(M, 'str')
     st.facts = st.facts.add(S, M - S - 1)
-    ev.run(nt.body, st)
+    ev.run(normalize.sunk_body(nt), st)
     if not sink:
         raise AnalysisError('anchor vanished: next_token returns nothing')
     for v, rst, node, fn in sink:
